@@ -149,24 +149,25 @@ ADDENDA = {
 
 # second half of the build (clause audit, builder sub-agents, third wave of seeded changes)
 ADDENDA2 = {
- "C01": " Governance changes fees / minimum ratio / penalty of products while vaults are open; the shutdown picks the app with the most partly paid running auctions, so that hand-backs of partly paid auctions are observed.",
+ "C01": " Governance changes fees / minimum ratio / penalty of products while vaults are open; the shutdown picks the app with the most partly paid running auctions, so that hand-backs of partly paid auctions are observed. Vault messages occasionally name another product of the same app (valid but hostile).",
  "C02": " In blocks that hand a seized vault back during a shutdown, supply minus recorded principal may not grow (what the hand-back takes off the books is covered by what it burns), whatever slack earlier events left; governance parameter changes occur mid-run.",
- "C03": " Fixed (non-oracle) debt prices away from par, an inactive debt-asset feed, creation under an inactive price and larger position sizes are part of the workload.",
+ "C03": " Fixed (non-oracle) debt prices away from par, an inactive debt-asset feed, creation under an inactive price and larger position sizes are part of the workload. Stable-mint products: after a successful create / deposit the principal on the product's stable-mint vaults does not exceed the ceiling in force; governance sets the ceiling 1000 tokens above what is outstanding, then mint / redeem (fee part stays in circulation) / mints around the room left.",
  "C05": " All order kinds (limit, market, market-making batches) take part in the in-situ batches.",
- "C06": " A liquidity world (deposits, withdrawals, farming, orders over real blocks) is monitored as well: shares minted in an end block must be matched by the deposit offered.",
+ "C06": " A liquidity world (deposits, withdrawals, farming, orders over real blocks) is monitored as well: shares minted in an end block must be matched by the deposit offered. The world workload includes withdraw messages that offer another pool's coin.",
  "C07": " Governance changes the pair's swap-fee rate while orders rest; violations that need such a change carry their own labels (open finding).",
  "C08": " Liquidation runs end with a generation-1 phase (seizure by MsgLiquidateBorrow at deep and at just-above-threshold ratios, MsgPlaceDutchLendBid, reserve funding); in every second universe the lend app has id 3 as on the production chain, which makes the reserve-funding handler's settlement of generation-1 auctions reachable: its simple case is aimed at and must keep the books, the other cases are classified (open finding). Books are asserted after every settling bid, after mid-run fund / rate-parameter changes and after generation-1 second rounds.",
  "C09": " Liquidate messages of both generations for vaults and borrows (safe, unsafe, exactly at the threshold by exact rational prices: nothing may be seized), hand-over laws for seized borrows (custody delta equals recorded collateral, exactly one auction, lend position reduced), every open borrow must be on the list the sweep walks (with a scenario in which a seizure closes lend position n while another borrow carries number n), and price-outage starvation probes (a position the sweep cannot handle must not starve the ones behind it).",
  "C10": " A close-out ledger per ending generation-2 auction (burn, collector, keeper incentive, initiator, owner remainder, nobody else), price / deposit / collateral laws for automatic limit-bid fills, externally initiated auctions, fixture variants for bonus / penalty / incentive / auction flags; generation-1 lend auctions are also closed while the oracle keeps moving against the borrower (second round opened by the closing bid) and custody must be empty whenever no auction is live.",
- "C11": " Bidder ledgers cover externally initiated auctions and generation-1 lend bids.",
- "C12": " All 71 registered message types are enumerated from the interface registry and classified (owner-gated, donation, admin, open); a type without class or without a driven case fails the run's floor.",
+ "C11": " Bidder ledgers cover externally initiated auctions and generation-1 lend bids. English surplus bids are also sent in a foreign denomination (first bid and outbid).",
+ "C12": " All 71 registered message types are enumerated from the interface registry and classified (owner-gated, donation, admin, open); a type without class or without a driven case fails the run's floor. Cancel-all by a non-owner is sent without a pair list, naming the owner's pair and naming every pair.",
  "C13": " Booked fees are attributed per app (a message of app A may not change app B's books); governance changes the locker saving rate mid-run and one run in three ends with an emergency shutdown.",
- "C14": " Lend cells (borrow-open kinds, borrow-alternate, sweeps and liquidate messages of both generations under the breaker and with one feed down) and the generation-1 liquidate message naming its own / another listed / an unlisted app id under the breaker.",
- "C15": " Environment faults also run on the lend and liquidity universes; a rewards universe (gauges incl. a deposit above 2^64, reward programmes, epoch blocks) and a lend day-boundary scenario (chain started at height 14388, a depreciated pool, the 14400th and 28800th blocks explored) are part of the exploration.",
- "C16": " Further tapes: rewards gauges, reward programmes and the real oracle feed.",
- "C18": " Locker settlement is also checked when governance changes the saving rate between two interactions.",
- "C19": " Locker, vault and lend reward programmes run next to gauges in one rewards account: per-programme payout never exceeds what the programme still has, per-recipient share bounds, custody of the rewards account after every begin block.",
- "C20": " Generic round trips run on the lend, lend-with-liquidations, rewards and liquidity universes with every registered query method; records a reported gap loses are copied to the imported chain by the harness so that the continuation still decides everything else; restored lend id counters may never be below a live position id.",
+ "C14": " Lend cells (borrow-open kinds, borrow-alternate, sweeps and liquidate messages of both generations under the breaker and with one feed down) and the generation-1 liquidate message naming its own / another listed / an unlisted app id under the breaker. Cells with both controls on (breaker and executed shutdown; inside / after the cool-off, before / after the price snapshot): what the breaker refuses stays refused.",
+ "C15": " Environment faults also run on the lend and liquidity universes; a rewards universe (gauges incl. a deposit above 2^64, reward programmes, epoch blocks) and a lend day-boundary scenario (chain started at height 14388, a depreciated pool, the 14400th and 28800th blocks explored) are part of the exploration. A scenario seizes several vaults of one product in one sweep and matches one limit bid against all their auctions in one explored block; for every injected unit failure the wrapped steps enclosing the unit must still commit (the other units' work is kept).",
+ "C16": " Further tapes: rewards gauges, reward programmes and the real oracle feed. In the lend tape governance adds a third and a fourth pool (cross-pool pairs get their ids then).",
+ "C18": " Locker settlement is also checked when governance changes the saving rate between two interactions. The utilisation the chain derives its rates from must equal debt/(cash+debt) of the driven pool state; the rate laws are judged for every driven state whatever utilisation is reported.",
+ "C19": " Locker, vault and lend reward programmes run next to gauges in one rewards account: per-programme payout never exceeds what the programme still has, per-recipient share bounds, custody of the rewards account after every begin block. No programme ever pays more than its own undistributed remainder.",
+ "C20": " Generic round trips run on the lend, lend-with-liquidations, rewards and liquidity universes with every registered query method; records a reported gap loses are copied to the imported chain by the harness so that the continuation still decides everything else; restored lend id counters may never be below a live position id. Which app keeps its breaker on at export alternates between the lower and the higher app id.",
+ "C04": " Hostile withdraw messages name one pool and offer another pool's coin (same app, other app with the same pool number, the named pool's whole supply).",
 }
 
 def main():
